@@ -174,11 +174,13 @@ def merged_exact(table, labels, nlabel, scaled):
     return out
 
 
-def judge_merge(table, labels, nlabel, scaled, pkm):
+def judge_merge(table, labels, nlabel, scaled, pkm, stats=None):
     """pkm: dict returned by pks_table.pk2dmerge.  Expectation: exact sums over the members of each
-    label (labels = the code's own, already judged, labelling); means as exact rationals."""
+    label (labels = the code's own, already judged, labelling); means as exact rationals
+    sum(w x) / sum(w) for weights w = sI * scale of ANY sign; a merged peak whose total weight is
+    exactly 0 has no mean (only its sums are judged)."""
     if isinstance(table, FTable):
-        return judge_merge_f(table, labels, nlabel, scaled, pkm)
+        return judge_merge_f(table, labels, nlabel, scaled, pkm, stats)
     ex = merged_exact(table, np.asarray(labels, np.int64), nlabel, scaled)
     num = [e[0] for e in ex]
     den = [e[1] for e in ex]
@@ -193,11 +195,57 @@ def judge_merge(table, labels, nlabel, scaled, pkm):
         "dty": (num[5] * den[1], num[1] * den[5]),
         "spot3d_id": (np.arange(nlabel, dtype=np.int64), 1),
     }
+    defined = num[1] != 0
+    count_signs(stats, num[1])
     for k in sorted(want):
         if k not in pkm:
             problems.append("pk2dmerge result lacks %r" % k)
             continue
-        p = vec_mismatch("pk2dmerge(%s)[%s]" % ("scaled" if scaled else "unscaled", k), pkm[k], want[k][0], want[k][1])
+        got, wn, wd = np.asarray(pkm[k]), want[k][0], want[k][1]
+        if k in ("s_raw", "f_raw", "omega", "dty") and not defined.all() and got.shape == defined.shape:
+            got, wn, wd = got[defined], wn[defined], wd[defined]
+        p = vec_mismatch("pk2dmerge(%s)[%s]" % ("scaled" if scaled else "unscaled", k), got, wn, wd)
+        if p:
+            if got is not pkm[k]:
+                p += " (index among the merged peaks of non-zero total weight)"
+            problems.append(p)
+    return problems
+
+
+def count_signs(stats, totals):
+    """evidence: how many judged merged peaks had a negative / zero total weight"""
+    if stats is None:
+        return
+    neg = int(sum(1 for x in totals if x < 0))
+    zero = int(sum(1 for x in totals if x == 0))
+    stats["merged_peaks_judged_with_negative_total_weight"] = \
+        stats.get("merged_peaks_judged_with_negative_total_weight", 0) + neg
+    stats["merged_peaks_with_zero_weight_not_judged_for_means"] = \
+        stats.get("merged_peaks_with_zero_weight_not_judged_for_means", 0) + zero
+
+
+def judge_kernel(table, labels, nlabel, scaled, out):
+    """out: the (7, nlabel) array numbapkmerge itself filled (called directly on a zeroed buffer).
+    Rows = exact sums over the members: 0 s1, 1 w, 2 w*row, 3 w*col, 4 w*omega, 5 w*dty, 6 count with
+    w = sI * scale.  |x - e| <= 1e-9 * sum|terms| + 1e-12."""
+    tag = "numbapkmerge(%s)" % ("scaled" if scaled else "unscaled")
+    out = np.asarray(out)
+    if out.shape != (7, nlabel):
+        return ["%s: out has shape %s, expected (7, %d)" % (tag, out.shape, nlabel)]
+    labels = np.asarray(labels, np.int64)
+    if isinstance(table, FTable):
+        ex = merged_exact_f(table, labels, nlabel, scaled)
+        for r in range(7):
+            for j in range(nlabel):
+                e = ex["num"][r][j] / ex["den"][r]
+                a = ex["absn"][r][j] / ex["den"][r]
+                if not abs(float(out[r, j]) - e) <= TOL_REL * a + TOL_ABS:
+                    return ["%s: out[%d, %d] = %r, exact sum over the members %r" % (tag, r, j, float(out[r, j]), e)]
+        return []
+    ex = merged_exact(table, labels, nlabel, scaled)
+    problems = []
+    for r in range(7):
+        p = vec_mismatch("%s: out[%d]" % (tag, r), out[r], ex[r][0], ex[r][1])
         if p:
             problems.append(p)
     return problems
@@ -272,7 +320,6 @@ class FTable(object):
         self.om_i, self.om_s = exact_ints(omega)
         self.dty_i, self.dty_s = exact_ints(dty)
         self.sc_i, self.sc_s = exact_ints(scale)
-        assert min(self.sc_i) >= 0, "negative scale factors are not a class of the check"
         self._cache = {}
 
     def omega(self):
@@ -292,7 +339,8 @@ class FTable(object):
 
 def merged_exact_f(table, labels, nlabel, scaled):
     """exact sums per label with Python integers.  Returns dict: num[r] (list of ints per label) and
-    den[r] (int) for the rows r = 0..6 of numbapkmerge, absn[r] = sums of |terms| (rows 4, 5)."""
+    den[r] (int) for the rows r = 0..6 of numbapkmerge, absn[r] = sums of |terms| (every row: the
+    weights sI * scale may have any sign)."""
     key = (bool(scaled), int(nlabel), hash(np.ascontiguousarray(labels).tobytes()))
     if key in table._cache:
         return table._cache[key]
@@ -304,34 +352,28 @@ def merged_exact_f(table, labels, nlabel, scaled):
         sc, scs = [1] * len(table.sc_i), 0
     om, dt = table.om_i, table.dty_i
     num = [[0] * nlabel for r in range(7)]
-    a4 = [0] * nlabel
-    a5 = [0] * nlabel
+    ab = [[0] * nlabel for r in range(7)]
     for k in range(len(lab)):
         j, f = lab[k], frm[k]
         w = sI[k] * sc[f]
-        num[0][j] += s1[k]
-        num[1][j] += w
-        num[2][j] += srI[k] * sc[f]
-        num[3][j] += scI[k] * sc[f]
-        t4 = om[f] * w
-        t5 = dt[f] * w
-        num[4][j] += t4
-        num[5][j] += t5
-        a4[j] += abs(t4)
-        a5[j] += abs(t5)
-        num[6][j] += 1
+        terms = (s1[k], w, srI[k] * sc[f], scI[k] * sc[f], om[f] * w, dt[f] * w, 1)
+        for r in range(7):
+            num[r][j] += terms[r]
+            ab[r][j] += abs(terms[r])
     den = [1, 1 << scs, 1 << scs, 1 << scs, 1 << (scs + table.om_s), 1 << (scs + table.dty_s), 1]
-    out = {"num": num, "den": den, "absn": {2: num[2], 3: num[3], 4: a4, 5: a5}}
+    out = {"num": num, "den": den, "absn": ab}
     table._cache = {key: out}
     return out
 
 
 def judge_merge_f(table, labels, nlabel, scaled, pkm, stats=None):
-    """general-value judge.  Sums: |x - e| <= 1e-9 * sum|terms| + 1e-12.  Means m = N_r / N_1:
-    |x - m| <= 1e-9 * (sum|terms_r| / N_1 + |m|) + 1e-12, i.e. relative to the magnitude of what was
-    summed, not to a possibly cancelled result.  A merged peak whose total weight is exactly 0 (all
-    scale factors 0) has no defined mean: only its pixel count, 2D-peak count and (zero) intensity are
-    judged."""
+    """general-value judge, weights w = sI * scale of ANY sign.  Sums: |x - e| <= 1e-9 * sum|terms| +
+    1e-12.  Means m = N_r / N_1 (exact rational sum(w x) / sum(w)):
+    |x - m| <= 1e-9 * (sum|terms_r| / |N_1| + |m| * sum|w| / |N_1|) + 1e-12, i.e. relative to the
+    magnitude of what was summed in the numerator AND in the denominator, not to possibly cancelled
+    results (all weights of one sign: sum|w| / |N_1| = 1).  A merged peak whose total weight is exactly
+    0 (all scale factors 0, or positive and negative members that cancel) has no defined mean: only
+    its pixel count, 2D-peak count and (zero) intensity are judged."""
     ex = merged_exact_f(table, np.asarray(labels, np.int64), nlabel, scaled)
     num, den, absn = ex["num"], ex["den"], ex["absn"]
     tag = "pk2dmerge(%s)" % ("scaled" if scaled else "unscaled")
@@ -357,23 +399,26 @@ def judge_merge_f(table, labels, nlabel, scaled, pkm, stats=None):
         for name, r in (("Number_of_pixels", 0), ("sum_intensity", 1), ("npk2d", 6)):
             e = num[r][j] / den[r]                  # int / int: correctly rounded
             x = got[name][j]
-            if not abs(x - e) <= TOL_REL * abs(e) + TOL_ABS:
+            if not abs(x - e) <= TOL_REL * (absn[r][j] / den[r]) + TOL_ABS:
                 bad(name, j, x, e, 0, "sum over the members")
         if num[1][j] == 0:
             undefined += 1
             continue
-        w = num[1][j] / den[1]
+        w = abs(num[1][j]) / den[1]
+        cancel = absn[1][j] / abs(num[1][j])           # >= 1; = 1 when all weights have one sign
         for name, r in (("s_raw", 2), ("f_raw", 3), ("omega", 4), ("dty", 5)):
             fr = Fraction(num[r][j] * den[1], num[1][j] * den[r])
             e = float(fr)
             mag = (absn[r][j] / den[r]) / w
             x = got[name][j]
-            if not abs(x - e) <= TOL_REL * (mag + abs(e)) + TOL_ABS:
+            if not abs(x - e) <= TOL_REL * (mag + abs(e) * cancel) + TOL_ABS:
                 bad(name, j, x, e, 0, "intensity-weighted mean, exact rational %d/%d" % (fr.numerator, fr.denominator)
                     if fr.denominator < 10 ** 12 else "intensity-weighted mean")
     if stats is not None:
         stats["merged_peaks_with_zero_weight_not_judged_for_means"] = \
             stats.get("merged_peaks_with_zero_weight_not_judged_for_means", 0) + undefined
+        stats["merged_peaks_judged_with_negative_total_weight"] = \
+            stats.get("merged_peaks_judged_with_negative_total_weight", 0) + sum(1 for x in num[1] if x < 0)
     return problems
 
 
@@ -410,6 +455,7 @@ def judge_pk2d_f(table, glabel, scaled, pk):
 
 
 LAYOUTS = ("C64", "mixA", "mixB")
+VKINDS = ("wide", "monitor", "zero", "neg", "negmon")
 
 
 def _layout(a, how):
@@ -430,14 +476,26 @@ def _layout(a, how):
 
 
 def make_vtable(kind, n, seed, root, layout="C64", shape=(13, 17)):
-    """value classes of the property table (all finite, scale >= 0):
+    """value classes of the property table (all finite):
        wide    sI up to 1e9, s1 up to 1e5, scale factors 10**U(-6, 3), omega U(-180, 360), dty U(-5, 5)
        monitor scale = monitor_ref / monitor, monitor U(1e3, 1e9), monitor_ref = mean (non-dyadic quotients)
        zero    as wide with scale = 0 on about half of the frames; every fourth component (by its
                minimum) has ALL members on zero-scale frames (total weight 0: means undefined)
+       neg     SIGN classes of the weights: as wide with the scale factor negative on about a third of
+               the frames AND a negative sI (background-subtracted table) for about a quarter of the
+               peaks: merged peaks of negative total weight, of positive total weight with negative
+               members, with one member and with >= 1000 members; every fourth component (by its
+               minimum) of an even number m >= 2 of members is made to cancel EXACTLY (all members the
+               same |sI|, row and column sums; m/2 on frame 0, m/2 on frame 1, scale[1] = -scale[0]):
+               total weight 0, mean undefined, with and without the scale factors when the signs of sI
+               are used (every second of them: sI = +c on both frames -> cancels only when scaled;
+               the others: sI = +c / -c on ONE frame -> cancels scaled and unscaled)
+       negmon  scale = monitor_ref / monitor with a monitor (offset subtracted) that reads below zero
+               on about a fifth of the frames - slightly (|monitor| down to 1e-6 of the typical reading:
+               huge negative scale factors) to fully negative; monitor_ref = mean of the monitor
     layout: C64 = C-contiguous float64; mixA = omega Fortran-ordered float64, dty float32, scale strided;
             mixB = omega Fortran-ordered float32, dty strided float64, scale Fortran-ordered float64"""
-    rng = np.random.default_rng([int(seed), int(n), 4242, ("wide", "monitor", "zero").index(kind)])
+    rng = np.random.default_rng([int(seed), int(n), 4242, VKINDS.index(kind)])
     nf = shape[0] * shape[1]
     s1 = rng.integers(1, 100001, n)
     sI = np.maximum(1, (10 ** rng.uniform(0, 9, n)).astype(np.int64))
@@ -447,8 +505,12 @@ def make_vtable(kind, n, seed, root, layout="C64", shape=(13, 17)):
     om = rng.uniform(-180, 360, shape)
     dt = rng.uniform(-5, 5, shape)
     monitor = None
-    if kind == "monitor":
+    if kind in ("monitor", "negmon"):
         mon = rng.uniform(1e3, 1e9, shape)
+        if kind == "negmon":
+            dip = rng.random(shape) < 0.2
+            dip.flat[2], dip.flat[3] = True, False
+            mon = np.where(dip, -mon * 10 ** rng.uniform(-6, 0, shape), mon)
         ref = float(np.mean(mon))
         sc = ref / mon
         monitor = (mon, ref)
@@ -466,10 +528,39 @@ def make_vtable(kind, n, seed, root, layout="C64", shape=(13, 17)):
         isdead[dead] = True
         m = isdead[root]
         frm[m] = zframes[rng.integers(0, len(zframes), int(m.sum()))]
+    if kind == "neg":
+        sc = np.where(rng.random(shape) < 0.33, -sc, sc)
+        sc.flat[0] = abs(sc.flat[0])
+        sc.flat[1] = -sc.flat[0]
+        sI = np.where(rng.random(n) < 0.25, -sI, sI)
+        srI = sI * rng.integers(0, 2048, n) + rng.integers(0, 50, n)
+        scI = sI * rng.integers(0, 2048, n) + rng.integers(0, 50, n)
+        root = np.asarray(root)
+        roots = np.nonzero(root == np.arange(n))[0]
+        size = np.bincount(root, minlength=n)
+        even = roots[(size[roots] % 2 == 0)]
+        for q, r in enumerate(even[::4]):
+            mem = np.nonzero(root == r)[0] if size[r] < 64 else None
+            if mem is None:
+                continue
+            c = int(abs(sI[r]))
+            h = len(mem) // 2
+            if q % 2 == 0:
+                sI[mem] = c
+                frm[mem[:h]], frm[mem[h:]] = 0, 1
+            else:
+                sI[mem[:h]], sI[mem[h:]] = c, -c
+                frm[mem] = 0
+            srI[mem] = sI[mem] * 1000 + 7
+            scI[mem] = sI[mem] * 500 + 3
     if n:
-        frm[int(rng.integers(0, n))] = nf - 1
+        k_last = int(rng.integers(0, n))
+        if kind == "neg":                      # do not take a member out of a cancelling component
+            iso = np.nonzero(size[root] == 1)[0]
+            k_last = int(iso[0]) if len(iso) else k_last
+        frm[k_last] = nf - 1
     how = {"C64": ("C", "C", "C"), "mixA": ("F", "f32", "strided"), "mixB": ("F32", "strided", "F")}[layout]
-    if kind == "monitor" and layout != "C64":
+    if kind in ("monitor", "negmon") and layout != "C64":
         raise ValueError("the monitor class is built C-contiguous (the dataset derives scale itself)")
     props = np.array([s1, sI, srI, scI, frm], np.int64)
     return FTable(props, _layout(om, how[0]), _layout(dt, how[1]), _layout(sc, how[2]),
@@ -603,14 +694,21 @@ def make_instance(family, n, seed):
 
 
 def make_table(n, seed, shape=(7, 11)):
-    """random integer property table: s1 1..40, sI 1..2000, srI ~ sI*row, scI ~ sI*col, frm any frame;
-    omega in quarter degrees (incl. negative), dty in eighths, scale factors k/8 in (0, 2]"""
+    """random integer property table: s1 1..40, |sI| 1..2000, srI ~ sI*row, scI ~ sI*col, frm any frame;
+    omega in quarter degrees (incl. negative), dty in eighths, scale factors k/8, |k/8| in (0, 2].
+    SIGNS: about one 2D peak in ten has a negative sI (background subtracted) and about one frame in
+    eight a negative scale factor, so every family / route / history sees merged peaks of negative
+    total weight and of mixed signs (a total of exactly 0 can happen: its means are not judged)."""
     rng = np.random.default_rng([int(seed), int(n), 977])
+    sgn = np.random.default_rng([int(seed), int(n), 978])
     nf = shape[0] * shape[1]
     s1 = rng.integers(1, 41, n)
     sI = rng.integers(1, 2001, n)
-    srI = sI * rng.integers(0, 2048, n) + rng.integers(0, 50, n)
-    scI = sI * rng.integers(0, 2048, n) + rng.integers(0, 50, n)
+    rr, re = rng.integers(0, 2048, n), rng.integers(0, 50, n)
+    cr, ce = rng.integers(0, 2048, n), rng.integers(0, 50, n)
+    sI = np.where(sgn.random(n) < 0.1, -sI, sI)
+    srI = sI * rr + re
+    scI = sI * cr + ce
     frm = rng.integers(0, nf, n)
     if n:
         frm[int(rng.integers(0, n))] = nf - 1
@@ -618,6 +716,7 @@ def make_table(n, seed, shape=(7, 11)):
     om = rng.integers(-720, 721, nf)
     dt = rng.integers(-400, 401, nf)
     sc = rng.integers(1, 17, nf)
+    sc = np.where(sgn.random(nf) < 0.125, -sc, sc)
     return Table(props, shape, om, 4, dt, 8, sc, 8)
 
 
